@@ -60,49 +60,44 @@ ALLOWED_NODES = [
 ]
 
 
-def access_scan(repo):
-    """every textual use of the intern table must be one of the forms the A7 rely/guarantee
-    argument covers"""
+def access_scan(repo, b=None):
+    """Inside a function under contract every use of the intern table is checked by Verus against the InternTable /
+    TableRef shim (anything but borrow / borrow_mut / get / insert / len is a type error there).  This scan covers the
+    rest of the crate: outside the functions under contract the table may only be read."""
     bad = []
     sites = []
+    spans = {}
+    if b is not None:
+        for fid, f in b.fns.items():
+            if fid.startswith("type::"):
+                continue
+            spans.setdefault(f["file"], []).append((f["line_start"], f["line_end"]))
     for path in sorted(glob.glob(os.path.join(repo, "src", "**", "*.rs"), recursive=True)):
         rel = os.path.relpath(path, repo)
         src = open(path).read()
         toks = [t for t in L.lex(src) if t.kind not in L.TRIVIA]
         for i, t in enumerate(toks):
-            if t.kind == "ident" and t.text in ("nodes", "nodes_borrow"):
-                if not rel.endswith("src/bdd.rs"):
-                    # outside bdd.rs only field accesses on something called `env` can be the intern table
-                    back = [x.text for x in toks[max(0, i - 7):i]]
-                    if not (back[-1:] == ["."] and "env" in back):
-                        continue
-                ctx = " ".join(x.text for x in toks[max(0, i - 3):i + 8])
-                sites.append(f"{rel}:{t.line}: {ctx}")
-                ok = False
-                pre = [x.text for x in toks[max(0, i - 2):i]]
-                post = [x.text for x in toks[i + 1:i + 8]]
-                if t.text == "nodes":
-                    if post[:2] == [":", "RefCell"]:
-                        ok = True                                    # field decl / struct literal
-                    elif pre == ["self", "."] and post[:4] == [".", "borrow", "(", ")"] and post[4:6] in ([".", "len"], [".", "get"]):
-                        ok = True
-                    elif pre == ["self", "."] and post[:4] == [".", "borrow_mut", "(", ")"] and post[4:5] == [";"]:
-                        ok = True
-                    elif pre[-1:] == ["mut"] and post[:1] == ["="]:
-                        ok = True                                    # `let mut nodes = FxHashMap::default()` in new()
-                    elif pre[-1:] != ["."] and post[:2] == [".", "insert"]:
-                        ok = True                                    # local map in new()
-                    elif pre[-1:] == ["("] and post[:1] == [")"]:
-                        ok = True                                    # RefCell::new(nodes)
-                    elif pre[-1:] == ["pub"]:
-                        ok = True
-                else:
-                    if pre[-1:] == ["mut"] and post[:1] == ["="]:
-                        ok = True
-                    elif post[:2] in ([".", "get"], [".", "insert"]):
-                        ok = True
-                if not ok:
-                    bad.append(f"{rel}:{t.line}: {ctx}")
+            if not (t.kind == "ident" and t.text == "nodes"):
+                continue
+            pre = [x.text for x in toks[max(0, i - 7):i]]
+            post = [x.text for x in toks[i + 1:i + 9]]
+            if not rel.endswith("src/bdd.rs"):
+                # outside bdd.rs only field accesses on something called `env` can be the intern table
+                if not (pre[-1:] == ["."] and "env" in pre):
+                    continue
+            elif pre[-1:] != ["."] and post[:2] != [":", "RefCell"]:
+                continue                      # a local variable / parameter that happens to be called `nodes`
+            ctx = " ".join(x.text for x in toks[max(0, i - 3):i + 8])
+            sites.append(f"{rel}:{t.line}: {ctx}")
+            if any(lo <= t.line <= hi for lo, hi in spans.get(rel, [])):
+                continue                      # inside a function under contract: checked by Verus
+            ok = False
+            if post[:2] == [":", "RefCell"]:
+                ok = True                     # the field declaration
+            elif post[:4] == [".", "borrow", "(", ")"] and post[4:6] in ([".", "len"], [".", "get"], [".", "contains_key"]):
+                ok = True                     # read-only use
+            if not ok:
+                bad.append(f"{rel}:{t.line}: {ctx}")
     return sites, bad
 
 
@@ -209,7 +204,20 @@ def verify_with_degradation(wd):
         path = os.path.join(wd, "rsbdd_unit.rs")
         with open(path, "w") as f:
             f.write(b.text)
-        res = run_verus(path, b)
+        res = None
+        ckey = None
+        if os.environ.get("VT_CACHE"):
+            # developer convenience for batch runs over many properties on one tree (never used by the MANIFEST commands)
+            import pickle
+            ckey = os.path.join(WORK, "cache", hashlib.sha256(b.text.encode()).hexdigest() + ".pkl")
+            if os.path.exists(ckey):
+                res = pickle.load(open(ckey, "rb"))
+        if res is None:
+            res = run_verus(path, b)
+            if ckey and not res.resource:
+                import pickle
+                os.makedirs(os.path.dirname(ckey), exist_ok=True)
+                pickle.dump(res, open(ckey, "wb"))
         if res.resource and not res.hard_errors:
             res2 = run_verus(path, b, rlimit=80)
             if res2.resource:
@@ -261,12 +269,12 @@ def run_property(pid, tier, seed):
     os.makedirs(wd, exist_ok=True)
     info = {"notes": []}
     try:
-        # ---- static scans
-        sites, bad = access_scan(REPO)
-        if bad:
-            raise Undecided("intern table accessed in a form the A7 rely/guarantee argument does not cover: " + "; ".join(bad))
         # ---- build + faithfulness + verus (with degradation)
         b, path, res = verify_with_degradation(wd)
+        # ---- static scan of the code that is NOT under contract
+        sites, bad = access_scan(REPO, b)
+        if bad:
+            raise Undecided("the intern table is written (or accessed in an unknown form) by code that is not under contract: " + "; ".join(bad))
         shape = b.fns.get("type::BDDEnv", {}).get("norm") or ""
         if "pub nodes : InternTable" not in shape:
             raise Undecided(f"BDDEnv no longer declares the intern table as `pub nodes: RefCell<FxHashMap<BDD, Rc<BDD>>>`: {shape}")
@@ -291,7 +299,12 @@ def run_property(pid, tier, seed):
         used_assumptions = sorted(set(known[x]["id"] for x in found if x in known))
         # ---- baseline
         with open(os.path.join(VERIF, "baseline", "obligations.json")) as f:
-            baseline = set(json.load(f)["tags"])
+            bl = json.load(f)
+        baseline = set(bl["tags"])
+        # functions whose proof relies on ghost blocks anchored inside the body AND whose text differs from the baseline:
+        # a failed obligation there may be a displaced proof hint, so only a concrete failing input decides (like a degraded function)
+        suspect = set(fid for fid in bl.get("mid_body_anchors", [])
+                      if fid in b.fns and hashlib.sha1(b.fns[fid]["norm"].encode()).hexdigest() != bl.get("fn_hash", {}).get(fid))
         tags = all_tags(b)
         newtags = sorted(t for t in b.clauses if t not in baseline)
         if newtags:
@@ -314,6 +327,7 @@ def run_property(pid, tier, seed):
                 extra["mutation_selftest"] = ms
         # ---- triage of failed obligations in functions Verus could ingest
         relevant = []
+        suspect_fail = {}
         arm_cache = {}
         for fl in res.failures:
             tp = tag_props(b, fl.tag)
@@ -341,7 +355,10 @@ def run_property(pid, tier, seed):
             if fl.tag and fl.tag not in baseline and fl.tag not in tags:
                 raise Undecided(f"failing obligation {fl.tag} is not in the baseline")
             if set(tp) & set(pclosure):
-                relevant.append((fl, tp))
+                if fl.fid in suspect:
+                    suspect_fail.setdefault(fl.fid, []).append((fl, tp))
+                else:
+                    relevant.append((fl, tp))
         ob_tags = sorted(t for t in tags if set(tag_props(b, t)) & set(pclosure))
         failed_tags = sorted(set(fl.tag for fl, _ in relevant))
         kf = load_known_findings()
@@ -381,6 +398,24 @@ def run_property(pid, tier, seed):
                 else:
                     viol.append((fl, tp, foundin))
                     failed_tags.append(fl.tag)
+        for fid, fls in sorted(suspect_fail.items()):
+            from . import replay as R
+            fl0, tp0 = fls[0]
+            if rbin is None:
+                rbin, err = R.build_replay()
+            foundin = R.search(pid, fl0, b, tier, seed, binary=rbin) if rbin else None
+            if foundin is None:
+                undecided.append(f"{fid}: its text changed and {len(fls)} obligation(s) of it no longer verify ({fl0.tag}: {fl0.message}); the proof of this "
+                                 "function relies on ghost blocks anchored inside the body, which the change may have displaced, and the replay "
+                                 "search found no failing input")
+                continue
+            tpu = sorted(set(p for _, tp in fls for p in tp))
+            hit = match_known(kf, pid, pclosure, fl0, b, foundin)
+            if hit:
+                log(f"KNOWN-FINDING: property={pid} {hit['what']}")
+            else:
+                viol.append((fl0, tpu, foundin))
+                failed_tags.append(fl0.tag)
         # ---- bounded stand-ins for functions outside the verifier's reach (labelled bounded, never counted as proved)
         standins = []
         bmodes = list(props.get(pid, {}).get("bounded", []))
@@ -662,7 +697,9 @@ def make_baseline():
             return 2
         os.makedirs(os.path.join(VERIF, "baseline"), exist_ok=True)
         with open(os.path.join(VERIF, "baseline", "obligations.json"), "w") as f:
-            json.dump({"tags": sorted(all_tags(b)), "verus_verified": res.verified}, f, indent=1)
+            json.dump({"tags": sorted(all_tags(b)), "verus_verified": res.verified,
+                       "fn_hash": {fid: hashlib.sha1(f_["norm"].encode()).hexdigest() for fid, f_ in sorted(b.fns.items())},
+                       "mid_body_anchors": sorted(fid for fid, c in b.contracts.items() if c.ghosts)}, f, indent=1)
         log(f"baseline written: {len(all_tags(b))} tags, {res.verified} verus items verified")
         return 0
     finally:
